@@ -2,9 +2,13 @@
 
 package bad
 
-import "verifsk/ext"
+import (
+	"verifsk/ext"
+	"verifsk/lib/v2"
+)
 
 var _ ext.ID
+var _ lib.Kind
 
 // :@I1@
 type Convergen interface {
